@@ -92,6 +92,8 @@ def concretise(o, unknown=99):
                 c["summary"] = "  \n"
             if z in (1, 3):
                 c["artifact"] = "a" * 64
+            if z == 6:
+                c["artifact"] = "  "
             if z == 4:
                 c["artifact_of_latest_checkpoint"] = True
         return c
